@@ -162,6 +162,7 @@ func normMtime(s string, known map[int64]bool) string {
 // ---------- the implementation interpreter ----------
 
 type fsImpl struct {
+	win     bool   // Windows-typed file system: virtual unix paths are mapped with FromUnixPath / back with ToSlash
 	osMode  bool   // kernel oracle: OsFS on a tmpfs directory, paths re-rooted at `root`, virtual cwd
 	root    string
 	vcwd    string
@@ -276,6 +277,12 @@ func (m *fsImpl) cleanup() {
 
 // in maps a virtual path to the path given to the file system.
 func (m *fsImpl) in(p string) string {
+	if m.win {
+		if p == "" {
+			return p
+		}
+		return avfs.FromUnixPath(m.views[0], p)
+	}
 	if !m.osMode || p == "" || m.root == "" {
 		return p
 	}
@@ -289,6 +296,9 @@ func (m *fsImpl) in(p string) string {
 }
 
 func (m *fsImpl) inLink(p string) string {
+	if m.win {
+		return m.in(p)
+	}
 	if m.osMode && m.root != "" && strings.HasPrefix(p, "/") {
 		return m.root + p
 	}
@@ -297,6 +307,13 @@ func (m *fsImpl) inLink(p string) string {
 
 // out maps a path returned by the file system back to the virtual namespace.
 func (m *fsImpl) out(p string) string {
+	if m.win {
+		s := m.views[0].ToSlash(p)
+		if len(s) >= 2 && s[1] == ':' {
+			s = s[2:]
+		}
+		return s
+	}
 	if !m.osMode || m.root == "" {
 		return p
 	}
